@@ -837,8 +837,25 @@ def fuzz(ck, c, recs):
   env = dict(os.environ)
   env['LD_PRELOAD'] = vb.ASAN_RT
   env['ASAN_OPTIONS'] = 'detect_leaks=0:allocator_may_return_null=1:abort_on_error=0:exitcode=77:max_allocation_size_mb=512'
-  p = subprocess.run(cmd, capture_output=True, text=True, env=env, timeout=secs + 300, errors='replace')
-  log = p.stderr
+  import signal
+  import tempfile
+  logf = tempfile.TemporaryFile(mode='w+', errors='replace')
+  pr = subprocess.Popen(cmd, stdout=subprocess.DEVNULL, stderr=logf, env=env, start_new_session=True)
+  try:
+    pr.wait(timeout=secs + 20)
+  except subprocess.TimeoutExpired:      # fork mode overshoots -max_total_time on a loaded machine: stop the whole group
+    try:
+      os.killpg(pr.pid, signal.SIGKILL)
+    except OSError:
+      pass
+    pr.wait()
+    ck.label('fuzz:stopped-by-harness-timeout')
+
+  class P:
+    returncode = pr.returncode
+  p = P()
+  logf.seek(0)
+  log = logf.read()
   import re
   execs = re.findall(r'#(\d+): cov:', log)
   ck.extra['fuzz_execs'] = max(int(x) for x in execs) if execs else None
@@ -852,7 +869,7 @@ def fuzz(ck, c, recs):
       ck.label('fuzz:' + a.split('-')[0] + '(inconclusive)')
       continue
     # re-run the single input to obtain its report
-    q = subprocess.run([exe, path], capture_output=True, text=True, env=env, timeout=120, errors='replace')
+    q = subprocess.run([exe, path], stdin=subprocess.DEVNULL, capture_output=True, text=True, env=env, timeout=120, errors='replace')
     rep = q.stderr
     kind, fn, loc = isolate.innermost_frame(rep)
     m = re.search(r'VF-ORACLE: ([^\n]*)', rep)
